@@ -287,16 +287,39 @@ def compare_tests(bi):
             elif yy == ("const", 1) and oo == "Ge" or yy == ("const", 0) and oo == "Gt":
                 extra.append((e, "Ne", xx, ("const", 0)))
     out += extra
+    # differences compared with zero:  a - b == 0  is  a == b ;  a.saturating_sub(b) == 0  is  a <= b
+    diff = []
+    for e, o, x, y in out:
+        for (xx, yy, oo) in ((x, y, o), (y, x, SWAP[o])):
+            if yy != ("const", 0):
+                continue
+            d = xx[1] if xx[0] == "field" and xx[2] == 0 and xx[1][0] == "binop" else xx
+            if d[0] != "binop" or not d[1].startswith("Sub"):
+                continue
+            if d[1] == "SubSat":
+                if oo == "Eq":
+                    diff.append((e, "Le", d[2], d[3]))
+                elif oo in ("Ne", "Gt"):
+                    diff.append((e, "Gt", d[2], d[3]))
+            elif oo in ("Eq", "Ne"):
+                diff.append((e, oo, d[2], d[3]))
+            elif oo == "Gt":
+                diff.append((e, "Ne", d[2], d[3]))
+    out += diff
     bi._compare_tests = out
     return out
 
 
-def edges_where(bi, a, op, b):
-    """CFG edges on which `a op b` is known to hold (a, b terms; b may be a predicate on terms)."""
+def edges_where(bi, a, op, b, bounded=False):
+    """CFG edges on which `a op b` is known to hold (a, b terms; b may be a predicate on terms).
+    bounded=True: `a` is a counter that the caller has shown never exceeds `b` (it starts at 0 and moves by +1 once per
+    child, b is the number of children), so `a >= b` says `a == b` and `a < b` says `a != b`."""
     out = []
     bp = b if callable(b) else (lambda t, b=b: t == b)
     for e, o, x, y in compare_tests(bi):
         for (xx, yy, oo) in ((x, y, o), (y, x, SWAP[o])):
+            if bounded and xx == a and bp(yy) and oo in ("Ge", "Lt"):
+                oo = "Eq" if oo == "Ge" else "Ne"
             if xx == a and bp(yy):
                 if oo == op:
                     ed = bi.edge(e, True)
